@@ -194,15 +194,13 @@ def r4_3(ctx: Ctx) -> RuleResult:
     dom = KindDomain(defaults={obj: JSON_KINDS})
     flow = Flow(fn.node, dom)
     n = 0
+    # every expression that takes an element of the target, wherever its value goes
     for node in ast.walk(fn.node):
-        if not isinstance(node, ast.Return) or node.value is None:
-            continue
-        v = node.value
         elem = None
-        if isinstance(v, ast.Call) and callee_name(v) == "getitem" and v.args and path_of(v.args[0]) == obj:
-            elem = v
-        elif isinstance(v, ast.Subscript) and path_of(v.value) == obj:
-            elem = v
+        if isinstance(node, ast.Call) and callee_name(node) == "getitem" and node.args and path_of(node.args[0]) == obj:
+            elem = node
+        elif isinstance(node, ast.Subscript) and isinstance(node.ctx, ast.Load) and path_of(node.value) == obj:
+            elem = node
         if elem is None:
             continue
         n += 1
